@@ -47,6 +47,9 @@ static void body_own(int t, Out& out) {
     SU_vector u = a.UTransform(b, gsl_complex_rect(0, 0.5)); put(out, u);   // matrix exponential: thread-local scratch and RNG
     out.push_back(a * b);
     SU_vector m = std::move(s) - c; put(out, m);
+    // constant operators from the factories: every thread asks for the same ones, the first request of the process included
+    { SU_vector P = SU_vector::Projector(d, d - 1), I = SU_vector::Identity(d), G = SU_vector::Generator(d, 1), Pp = SU_vector::PosProjector(d, 1), Pn = SU_vector::NegProjector(d, 1), al = SU_vector::make_aligned(d);
+      put(out, P); put(out, I); put(out, G); put(out, Pp); put(out, Pn); put(out, al); out.push_back(P * P); }
   }
   SU_vector::clear_mem_cache();
 }
